@@ -142,3 +142,25 @@ PROPS["C04"] = dict(
                             "reverse exchange / sparse-row exchange of the node-aware package: differential only (C03 harness)"],
     assumptions=["AMG residual histories compared with relative tolerance 1e-8 (reassociation)"],
 )
+
+
+def c05_configs(tier, seed):
+    cfgs = []
+    for n, ppn in nps(tier, [(2, 2), (3, 3), (4, 2)], [(2, 1), (2, 2), (3, 3), (4, 2), (4, 4), (6, 3), (8, 4), (16, 4)]):
+        cfgs.append({"tag": f"h_c05-np{n}-ppn{ppn}", "harness": "h_c05", "np": n, "env": {"PPN": ppn, "VERIF_WATCHDOG": 60}, "timeout": 900 if tier == "thorough" else 280})
+    return cfgs
+
+
+PROPS["C05"] = dict(
+    module="RaptorModel.Props.C05",
+    harnesses=["h_c05"],
+    configs=c05_configs,
+    rule=("five scenarios (packages built back to back with reused tags + exchanges; assembly, mat-vec, SpGEMM, transpose; AMG setup+solve with "
+          "CLJP/PMIS and with MIS-2 aggregation; repartitioning) x schedules of the PMPI layer: natural, reverse, random wildcard orders with "
+          "seeded delays of sends and collective entries, and every permutation of source preference at each wildcard site (tags 12345, 6543, "
+          "9876, 6789, 4321, 7890, 29485) for np <= 3 (4 thorough); results compared with the reference schedule, traces validated. "
+          "Non-trivial = the run made at least one wildcard choice / exchanged at least one message."),
+    trusted=COMMON_TRUST + ["real MPI progress engine (the layer can only choose among messages that have arrived)",
+                            "the PMPI layer and its logging"],
+    assumptions=["abstract MPI semantics: per-pair FIFO, synchronising all-reduce/all-gather/barrier; Bcast/Gather/Reduce do not advance the epoch"],
+)
